@@ -27,7 +27,8 @@ pub fn run(ctx: &Ctx) -> (Report, Meta) {
     )
     .assume("64-bit FNV hash over all bit patterns of the ode log; collisions negligible")
     .floor("option_sets_compared", 2000)
-    .floor("base_configs_with_rejections", 30);
+    .floor("base_configs_with_rejections", 30)
+    .floor("low_level_dense_toggle_pairs", 500);
     let g = GenOpts {
         allow_first_step: true,
         allow_max_step: true,
@@ -35,7 +36,9 @@ pub fn run(ctx: &Ctx) -> (Report, Meta) {
         ..Default::default()
     };
     let n = ctx.size(3_000, 300_000);
+    let g_ref = &g;
     let rep = par_for(n, "C12", |i, rep| {
+        let g = g_ref;
         let case_id = format!("base/{}", i);
         if !ctx.want(&case_id) {
             return;
@@ -213,6 +216,49 @@ pub fn run(ctx: &Ctx) -> (Report, Meta) {
             rep.sample(json!({"base": base.describe(&prob), "t_eval": te, "events": evs.iter().map(|e| e.describe()).collect::<Vec<_>>(), "plain_counters": plain.counters, "ode_log_hash": format!("{:x}", plain.hash)}));
         }
     });
+    // auxiliary clause: the low-level builders with dense_output on and off make identical callback
+    // sequences (x, y); only the evaluation counts may differ (DOP853's three extra stages)
+    let nlow = ctx.size(1_500, 150_000);
+    let rep_low = par_for(nlow, "C12", |i, rep| {
+        let case_id = format!("low/{}", i);
+        if !ctx.want(&case_id) {
+            return;
+        }
+        let mut rng = Rng::derive(ctx.seed, 1212, i as u64);
+        let (prob, scn) = gen_case(&mut rng, &g);
+        let m = mname(scn.method);
+        let mut seqs: Vec<Vec<(u64, u64)>> = Vec::new();
+        let mut statuses = Vec::new();
+        for dense in [true, false] {
+            let mut probe = Probe::new(&prob, scn.x0);
+            probe.user_jac = scn.user_jac;
+            probe.budget = 1_000_000;
+            let lo = LowOpts { dense, first_step: scn.first_step, max_step: scn.max_step, max_steps: scn.max_steps, ..Default::default() };
+            let mut so = RecSolOut::new(Some(&probe));
+            match run_low_guarded(scn.method, &probe, scn.x0, &scn.y0, scn.xend, &scn.rtol, &scn.atol, &lo, &mut so) {
+                LowOutcome::Ok(ir) => {
+                    statuses.push(format!("{:?}/{}/{}", ir.status, ir.steps.accepted, ir.steps.rejected));
+                    seqs.push(so.cbs.iter().map(|c| (c.x.to_bits(), hash(&c.y))).collect());
+                }
+                LowOutcome::Panic(msg) => {
+                    rep.violate(&format!("C12/no_panic/{}/low_level", m), msg, &case_id, scn.describe(&prob));
+                    return;
+                }
+                _ => {
+                    rep.inconclusive("low_level_run_not_ok");
+                    return;
+                }
+            }
+        }
+        rep.evals(2);
+        rep.count("low_level_dense_toggle_pairs", 1);
+        if seqs[0] != seqs[1] || statuses[0] != statuses[1] {
+            let first = seqs[0].iter().zip(&seqs[1]).position(|(a, b)| a != b);
+            rep.violate(&format!("C12/dense_toggle_changes_steps/{}/low_level", m), format!("dense_output on/off: {} vs {} callbacks, statuses {} vs {}, first differing callback {:?}", seqs[0].len(), seqs[1].len(), statuses[0], statuses[1], first), &case_id, scn.describe(&prob));
+        }
+    });
+    let mut rep = rep;
+    rep.merge(rep_low);
     let _ = Status::Success;
     (rep, meta)
 }
